@@ -7,7 +7,7 @@ FLAGS = (True, None, False)
 
 def tasks(tier):
     T = []
-    types = [(8, 4)] if tier == 'quick' else [(8, 4), (6, 3), (12, 6), (8, 2)]
+    types = [(8, 4)] if tier == 'quick' else [(8, 4), (6, 3), (9, 3), (8, 2)]
     def vi(name, params, func, bound):
         T.append(('sx.tasks', 'run_instance', ('sx.fxp', name, params, dict(k=2, no_prss=False), func, bound)))
     for l, f in types:
